@@ -12,10 +12,16 @@
   * `dec_enc_pk_P_closed` : decryption of an encryption under the public key is `pt + D`,
         `P·D = π(ext u·e_pk + ext e0 + ext e1·s) − π(rem c0) − π(rem c1)·π s`,
         `rem c_i ≡ c_i (mod P)`, `2‖rem c_i‖∞ ≤ P`;
-  * `dec_enc_pk_P_rq`     : the same about the expression the driver evaluates on its carrier `RQ`.
+  * `dec_enc_pk_P_rq`     : the same about the expression the driver evaluates on its carrier `RQ`;
+  * `extR_ofInts`         : `ExtendBasisSmallNormAndCenter` of the reduction of a small integer polynomial is its
+        reduction modulo `QP` (`2|x| < q₀`, `|x| ≤ p_k < 2^64`; C02's `extendSmallNorm` at the level of the model);
+  * `dec_enc_pk_P_noise_closed` : with `u, e0, e1, e_pk, s` reductions of integer polynomials, `D = ofInts D^Z` with
+        `2P‖D^Z‖∞ ≤ 2‖u·e_pk + e0 + s·e1‖∞ + P(1 + ‖s‖₁)` — `Props/C03.noise_upper_pk_P` with `hrel`, `hd0`, `hd1` derived
+        (through `Proofs/StackKSZ`: `ofInts : Z[X]/(X^n+1) → R_q` is a ring homomorphism).
 -/
 import Lattigo.Props.C03Ring
 import Lattigo.Proofs.StackKSExact
+import Lattigo.Proofs.StackKSNoise
 
 set_option linter.unusedSectionVars false
 set_option linter.unusedSimpArgs false
@@ -157,6 +163,244 @@ theorem dec_enc_pk_P_rq (hqs : qs ≠ []) (hps : ps ≠ []) (hco : (qs ++ ps).Pa
 
 end closed
 
+/-! ## The noise, closed -/
+
+section noise
+open Lattigo.ZPoly
+variable {qs ps : List ℕ} {n : ℕ} [hgq : Good qs n] [hg : Good (qs ++ ps) n] {μ : Type}
+
+/-- `ExtendBasisSmallNormAndCenter` on ONE small coefficient `x` (`2|x| < q₀`; since fix C03-9 the magnitude is
+reduced modulo `p`, so neither `|x| ≤ p` nor `p < 2^64` is needed any more — the two hypotheses are kept, unused, for
+the callers): the residue modulo `q₀` is re-centred and reduced modulo `p` -/
+theorem ext_coeff (q0 p : ℕ) (x : ℤ) (hq0 : 0 < q0) (hp : 0 < p) (_hpW : p < RQ.Rword) (h1 : 2 * x.natAbs < q0)
+    (_h2 : x.natAbs ≤ p) :
+    (if (x % (q0 : ℤ)).toNat > q0 / 2 then (p - (q0 - (x % (q0 : ℤ)).toNat) % p) % p
+      else (x % (q0 : ℤ)).toNat % p) = (x % (p : ℤ)).toNat := by
+  rcases Int.lt_or_le x 0 with hneg | hpos
+  · -- negative: residue `q0 − |x| > q0/2`
+    obtain ⟨m, hm⟩ : ∃ m : ℕ, x = -(m : ℤ) := ⟨x.natAbs, by omega⟩
+    have hm1 : 0 < m := by omega
+    have hm2 : 2 * m < q0 := by omega
+    have e1 : x % (q0 : ℤ) = ((q0 - m : ℕ) : ℤ) := by
+      rw [hm, show (-(m : ℤ)) = ((q0 - m : ℕ) : ℤ) + (q0 : ℤ) * (-1) by omega, Int.add_mul_emod_self_left]
+      exact Int.emod_eq_of_lt (by omega) (by omega)
+    rw [e1, Int.toNat_natCast, if_pos (by omega)]
+    have e2 : q0 - (q0 - m) = m := by omega
+    rw [e2]
+    have hr : m % p < p := Nat.mod_lt _ hp
+    have e4 : x % (p : ℤ) = (((p - m % p) % p : ℕ) : ℤ) := by
+      have hdiv := Nat.div_add_mod m p
+      rw [hm, Int.natCast_mod]
+      have : (-(m : ℤ)) = ((p - m % p : ℕ) : ℤ) + (p : ℤ) * (-((m / p : ℕ) : ℤ) - 1) := by
+        have : ((p - m % p : ℕ) : ℤ) = (p : ℤ) - ((m % p : ℕ) : ℤ) := by omega
+        rw [this]
+        have h3 : (m : ℤ) = (p : ℤ) * ((m / p : ℕ) : ℤ) + ((m % p : ℕ) : ℤ) := by exact_mod_cast hdiv.symm
+        rw [h3]; ring
+      rw [this, Int.add_mul_emod_self_left]
+    rw [e4, Int.toNat_natCast]
+  · obtain ⟨m, hm⟩ : ∃ m : ℕ, x = (m : ℤ) := ⟨x.natAbs, by omega⟩
+    have hm2 : 2 * m < q0 := by omega
+    have e1 : x % (q0 : ℤ) = (m : ℤ) := by rw [hm]; exact Int.emod_eq_of_lt (by omega) (by omega)
+    rw [e1, Int.toNat_natCast, if_neg (by omega), hm, ← Int.natCast_mod, Int.toNat_natCast]
+
+/-- **`ExtendBasisSmallNormAndCenter` of the reduction of a small integer polynomial is its reduction modulo `QP`** -/
+theorem extR_ofInts (hqs : qs ≠ []) (hge1 : ∀ q ∈ qs, 2 ≤ q) (hge2 : ∀ p ∈ ps, 2 ≤ p)
+    (hpW : ∀ p ∈ ps, p < RQ.Rword) (v : List ℤ)
+    (h1 : ∀ x ∈ v, 2 * x.natAbs < qs.headD 1) (h2 : ∀ x ∈ v, ∀ p ∈ ps, x.natAbs ≤ p) :
+    extR ps (RPoly.ofInts qs v) = RPoly.ofInts (qs ++ ps) v := by
+  obtain ⟨q0, qs', rfl⟩ : ∃ q0 qs', qs = q0 :: qs' := by
+    cases qs with
+    | nil => exact absurd rfl hqs
+    | cons a l => exact ⟨a, l, rfl⟩
+  have hq0 : 0 < q0 := by have := hge1 q0 (by simp); omega
+  show ({ qs := (q0 :: qs') ++ ps, c := (RPoly.ofInts (q0 :: qs') v).c ++ ps.map _ } : RPoly) = _
+  show _ = ({ qs := (q0 :: qs') ++ ps, c := ((q0 :: qs') ++ ps).map _ } : RPoly)
+  congr 1
+  rw [List.map_append]
+  congr 1
+  apply List.map_congr_left
+  intro p hp
+  show ((RPoly.ofInts (q0 :: qs') v).c.headD []).map _ = _
+  show (v.map fun (x : ℤ) => (x % (q0 : ℤ)).toNat).map _ = _
+  rw [List.map_map]
+  apply List.map_congr_left
+  intro x hx
+  have hp0 : 0 < p := by have := hge2 p hp; omega
+  exact ext_coeff q0 p x hq0 hp0 (hpW p hp) (h1 x hx) (h2 x hx p hp)
+
+theorem partP_zero : KS.partP qs.length (RPoly.zero (qs ++ ps) n) = RPoly.zero ps n := by
+  simp [KS.partP, RPoly.zero]
+
+/-- ring algebra: the two components of the public-key encryption recombine to the noise modulo `QP` -/
+theorem pk_recombine {eu ee0 ee1 pk0 pk1 s epk : RPoly} (h1 : WFq qs n eu) (h2 : WFq qs n ee0)
+    (h3 : WFq qs n ee1) (h4 : WFq qs n pk0) (h5 : WFq qs n pk1) (h6 : WFq qs n s) (hpk : pk0 + pk1 * s = epk) :
+    (eu * pk0 + ee0) + (eu * pk1 + ee1) * s = eu * epk + ee0 + ee1 * s := by
+  subst hpk
+  obtain ⟨eu, rfl⟩ := exists_lift eu h1
+  obtain ⟨ee0, rfl⟩ := exists_lift ee0 h2
+  obtain ⟨ee1, rfl⟩ := exists_lift ee1 h3
+  obtain ⟨pk0, rfl⟩ := exists_lift pk0 h4
+  obtain ⟨pk1, rfl⟩ := exists_lift pk1 h5
+  obtain ⟨s, rfl⟩ := exists_lift s h6
+  show val ((eu * pk0 + ee0) + (eu * pk1 + ee1) * s) = val (eu * (pk0 + pk1 * s) + ee0 + ee1 * s)
+  congr 1
+  ring
+
+/-- ring algebra: `(E − a) − s·b = 0` when `a + b·s = E` -/
+theorem residual_zero {a b s E : RPoly} (ha : WFq qs n a) (hb : WFq qs n b) (hs : WFq qs n s)
+    (h : a + b * s = E) : (E - a) - s * b = RPoly.zero qs n := by
+  subst h
+  obtain ⟨a, rfl⟩ := exists_lift a ha
+  obtain ⟨b, rfl⟩ := exists_lift b hb
+  obtain ⟨s, rfl⟩ := exists_lift s hs
+  show val ((a + b * s - a) - s * b) = val (0 : WFPoly qs n)
+  congr 1
+  ring
+
+/-- ring algebra: `a − b − c·s = (a − b) − s·c` -/
+theorem sub_sub_mul_comm {a b c s : RPoly} (ha : WFq qs n a) (hb : WFq qs n b) (hc : WFq qs n c)
+    (hs : WFq qs n s) : a - b - c * s = (a - b) - s * c := by
+  obtain ⟨a, rfl⟩ := exists_lift a ha
+  obtain ⟨b, rfl⟩ := exists_lift b hb
+  obtain ⟨c, rfl⟩ := exists_lift c hc
+  obtain ⟨s, rfl⟩ := exists_lift s hs
+  show val (a - b - c * s) = val ((a - b) - s * c)
+  congr 1
+  ring
+
+/-- ring algebra: `u·e + a + b·s = u·e + a + s·b` in the order `ZPoly` uses -/
+theorem noise_order {u e a b s : RPoly} (hu : WFq qs n u) (he : WFq qs n e) (ha : WFq qs n a)
+    (hb : WFq qs n b) (hs : WFq qs n s) : u * e + a + b * s = u * e + a + s * b := by
+  obtain ⟨u, rfl⟩ := exists_lift u hu
+  obtain ⟨e, rfl⟩ := exists_lift e he
+  obtain ⟨a, rfl⟩ := exists_lift a ha
+  obtain ⟨b, rfl⟩ := exists_lift b hb
+  obtain ⟨s, rfl⟩ := exists_lift s hs
+  show val (u * e + a + b * s) = val (u * e + a + s * b)
+  congr 1
+  ring
+
+/-- **dec_enc_pk_P_noise_closed.**  Setting of `dec_enc_pk_P_closed` with `u`, `e0`, `e1` the reductions of SMALL integer
+polynomials (`2|x| < q₀`, `|x| ≤ p_k`: ternary `u`, Gaussian errors), the secret and the key error the reductions of
+`s^Z`, `e_pk^Z`.  The decryption error `D` is the reduction of an INTEGER polynomial `D^Z` with
+
+      `2·P·‖D^Z‖∞ ≤ 2·‖u·e_pk + e0 + s·e1‖∞ + P·(1 + ‖s‖₁)`
+
+(`Props/C03.noise_upper_pk_P` with its hypotheses `hrel`, `hd0`, `hd1` DERIVED; `‖u·e_pk + e0 + s·e1‖∞` is bounded by
+`noise_upper_pk_noP`).  No hypothesis on any index: `RQ.modDown` reconstructs exactly. -/
+theorem dec_enc_pk_P_noise_closed (hqs : qs ≠ []) (hps : ps ≠ []) (hco : (qs ++ ps).Pairwise Nat.Coprime)
+    (hodd : ∀ q ∈ qs ++ ps, q % 2 = 1) (hpW : ∀ p ∈ ps, p < RQ.Rword)
+    (uZ e0Z e1Z epkZ sZ : List ℤ) (pk1 : RPoly)
+    (hul : uZ.length = n) (he0l : e0Z.length = n) (he1l : e1Z.length = n) (hepkl : epkZ.length = n)
+    (hsl : sZ.length = n) (hpk1 : WFq (qs ++ ps) n pk1)
+    (hsmall : ∀ v ∈ [uZ, e0Z, e1Z], (∀ x ∈ v, 2 * x.natAbs < qs.headD 1) ∧ ∀ x ∈ v, ∀ p ∈ ps, x.natAbs ≤ p) :
+    let L := qs ++ ps
+    let π := takeRows qs.length
+    let u := RPoly.ofInts qs uZ
+    let e0 := RPoly.ofInts qs e0Z
+    let e1 := RPoly.ofInts qs e1Z
+    let sQP := RPoly.ofInts L sZ
+    let pk0 := RPoly.ofInts L epkZ - pk1 * sQP
+    let c0 := extR ps u * pk0 + extR ps e0
+    let c1 := extR ps u * pk1 + extR ps e1
+    let D := downR qs.length c0 + π sQP * downR qs.length c1
+    ∃ DZ : List ℤ, DZ.length = n ∧ D = RPoly.ofInts qs DZ
+      ∧ 2 * (prodN ps * normInf DZ)
+          ≤ 2 * normInf (ZPoly.add (ZPoly.add (ZPoly.mul uZ epkZ) e0Z) (ZPoly.mul sZ e1Z))
+            + prodN ps * (1 + norm1 sZ) := by
+  intro L π u e0 e1 sQP pk0 c0 c1 D
+  have hcop := coprime_prod_of_pairwise hco
+  have hpsc := pairwise_right hco
+  have hpge : ∀ p ∈ ps, 2 ≤ p := (good_right hg).q_ge
+  have hgp : Good ps n := good_right hg
+  have hu : WFq qs n u := ofInts_wf _ hul
+  have he0 : WFq qs n e0 := ofInts_wf _ he0l
+  have he1 : WFq qs n e1 := ofInts_wf _ he1l
+  have hs : WFq L n sQP := ofInts_wf _ hsl
+  have hepk : WFq L n (RPoly.ofInts L epkZ) := ofInts_wf _ hepkl
+  have hpk0 : WFq L n pk0 := hepk.sub (hpk1.mul hs)
+  -- the extensions are the reductions modulo `QP`
+  have hxu : extR ps u = RPoly.ofInts L uZ := extR_ofInts hqs hgq.q_ge hpge hpW uZ (hsmall uZ (by simp)).1 (hsmall uZ (by simp)).2
+  have hxe0 : extR ps e0 = RPoly.ofInts L e0Z :=
+    extR_ofInts hqs hgq.q_ge hpge hpW e0Z (hsmall e0Z (by simp)).1 (hsmall e0Z (by simp)).2
+  have hxe1 : extR ps e1 = RPoly.ofInts L e1Z :=
+    extR_ofInts hqs hgq.q_ge hpge hpW e1Z (hsmall e1Z (by simp)).1 (hsmall e1Z (by simp)).2
+  have hxuw : WFq L n (extR ps u) := extR_wf hqs hu
+  have hxe0w : WFq L n (extR ps e0) := extR_wf hqs he0
+  have hxe1w : WFq L n (extR ps e1) := extR_wf hqs he1
+  have hc0 : WFq L n c0 := (hxuw.mul hpk0).add hxe0w
+  have hc1 : WFq L n c1 := (hxuw.mul hpk1).add hxe1w
+  -- the exact rounding identity
+  have hcl0 := rq_modDown_closed (qs := qs) (ps := ps) (n := n) hps hpsc hcop false hc0
+  have hcl1 := rq_modDown_closed (qs := qs) (ps := ps) (n := n) hps hpsc hcop false hc1
+  -- `pk0 + pk1·s = e_pk`
+  have hpk : pk0 + pk1 * sQP = RPoly.ofInts L epkZ := by
+    obtain ⟨a, ha⟩ := exists_lift _ hepk
+    obtain ⟨b, hb⟩ := exists_lift _ hpk1
+    obtain ⟨c, hc⟩ := exists_lift _ hs
+    show (RPoly.ofInts L epkZ - pk1 * sQP) + pk1 * sQP = _
+    rw [← ha, ← hb, ← hc]
+    show val ((a - b * c) + b * c) = val a
+    congr 1
+    ring
+  -- the noise modulo `QP` and its integer preimage
+  set EZ := ZPoly.add (ZPoly.add (ZPoly.mul uZ epkZ) e0Z) (ZPoly.mul sZ e1Z) with hEZ
+  have hm1 : (ZPoly.mul uZ epkZ).length = n := by rw [mul_length, hul]
+  have hm2 : (ZPoly.mul sZ e1Z).length = n := by rw [mul_length, hsl]
+  have hEZl : EZ.length = n := add_length _ _ (add_length _ _ hm1 he0l) hm2
+  have hEpoly : extR ps u * RPoly.ofInts L epkZ + extR ps e0 + extR ps e1 * sQP = RPoly.ofInts L EZ := by
+    rw [noise_order hxuw hepk hxe0w hxe1w hs, hxu, hxe0, hxe1, hEZ,
+      ofInts_add _ _ (add_length _ _ hm1 he0l) hm2, ofInts_add _ _ hm1 he0l, ofInts_mul _ _ hul hepkl,
+      ofInts_mul _ _ hsl he1l]
+  have hsum : c0 + c1 * sQP = RPoly.ofInts L EZ := by
+    rw [← hEpoly]
+    exact pk_recombine hxuw hxe0w hxe1w hpk0 hpk1 hs hpk
+  set δ0 := cenZ (KS.partP qs.length c0) with hδ0
+  set δ1 := cenZ (KS.partP qs.length c1) with hδ1
+  have hδ0l : δ0.length = n := cenZ_length (partP_wf hc0) hps
+  have hδ1l : δ1.length = n := cenZ_length (partP_wf hc1) hps
+  set W := ZPoly.sub (ZPoly.sub EZ δ0) (ZPoly.mul sZ δ1) with hW
+  have hm3 : (ZPoly.mul sZ δ1).length = n := by rw [mul_length, hsl]
+  have hWl : W.length = n := sub_length _ _ (sub_length _ _ hEZl hδ0l) hm3
+  have hWQP : RPoly.ofInts L W = (RPoly.ofInts L EZ - remC qs ps c0) - sQP * remC qs ps c1 := by
+    rw [hW, ofInts_sub _ _ (sub_length _ _ hEZl hδ0l) hm3, ofInts_sub _ _ hEZl hδ0l, ofInts_mul _ _ hsl hδ1l]
+    rfl
+  have hPW : RPoly.ofInts ps W = RPoly.zero ps n := by
+    have h1 : KS.partP qs.length (RPoly.ofInts L W) = RPoly.ofInts ps W := partP_ofInts _ _ _
+    have hh := partP_hom qs.length
+    rw [← h1, hWQP, hh.sub, hh.sub, hh.mul, partP_remC hc0 hps hpsc hpge, partP_remC hc1 hps hpsc hpge,
+      ← hh.mul, ← hh.sub, ← hh.sub, residual_zero hc0 hc1 hs hsum]
+    exact partP_zero
+  have hdvd : ∀ x ∈ W, ((prodN ps : ℕ) : ℤ) ∣ x := fun x hx =>
+    prodN_dvd_int ps hpsc x (fun p hp => ofInts_eq_zero_dvd hpge W hPW p hp x hx)
+  have hsm := smul_div (prodN ps) W hdvd
+  set DZ := W.map (· / ((prodN ps : ℕ) : ℤ)) with hDZ
+  have hDl : DZ.length = n := by rw [hDZ, List.length_map, hWl]
+  refine ⟨DZ, hDl, ?_, ?_⟩
+  · -- `P·D = ofInts qs W = P·ofInts DZ`
+    have hDw : WFq qs n D := hcl0.2.add ((takeRows_wf hs).mul hcl1.2)
+    have hPD : constQ qs n (RPoly.prod ps) * D = constQ qs n (RPoly.prod ps) * RPoly.ofInts qs DZ := by
+      have hclosed := (dec_enc_pk_P_closed (μ := Unit) hqs hps hco hodd id id ⟨RPoly.zero qs n, ⟨(), false, false⟩⟩
+        ⟨[RPoly.zero qs n, RPoly.zero qs n], ⟨(), false, false⟩⟩ _ _ [] rfl u e0 e1 pk0 pk1 _ sQP hpk WFq.zero
+        (by intro p hp; simp at hp; rw [hp]; exact WFq.zero) hu he0 he1 hpk0 hpk1 hs).2.1
+      have ht := takeRows_hom qs.length
+      rw [hclosed, hEpoly, sub_sub_mul_comm (takeRows_wf (ofInts_wf _ hEZl)) (takeRows_wf (remC_wf hc0 hps))
+        (takeRows_wf (remC_wf hc1 hps)) (takeRows_wf hs), ← ht.mul, ← ht.sub, ← ht.sub, ← hWQP, takeRows_ofInts,
+        ← hsm, ofInts_smul _ _ hDl, prod_eq_prodN]
+    exact cancel_P (constQ_wf _) (pinvElt_wf ps) hDw (ofInts_wf _ hDl) (pinvElt_mul_constQ hcop) hPD
+  · have hPodd : prodN ps % 2 = 1 :=
+      Scaling.prodN_odd ps (fun p hp => hodd p (List.mem_append_right _ hp))
+    have hPpos : 0 < prodN ps := BasisExt.prodN_pos ps (pos_of_ge2 hpge)
+    have hb : ∀ x, WFq L n x → 2 * normInf (cenZ (KS.partP qs.length x)) ≤ prodN ps := by
+      intro x hx
+      have hq : (KS.partP qs.length x).qs = ps := (partP_wf hx).1
+      have := cenZ_bound (KS.partP qs.length x) (by rw [hq]; exact hPpos) (by rw [hq]; exact hPodd)
+      rw [hq] at this
+      exact two_normInf_le_of this
+    exact ZPoly.noise_upper_pk_P (prodN ps) DZ EZ δ0 δ1 sZ hsm (hb c0 hc0) (hb c1 hc1)
+
+end noise
+
 /-! ## A concrete instance: `Q = [97]`, `P = [193]`, `n = 8` -/
 
 section concrete
@@ -214,6 +458,37 @@ example :
       ∧ (∀ c ∈ cenZ (KS.partP 1 c0), 2 * c.natAbs ≤ 193) ∧ (∀ c ∈ cenZ (KS.partP 1 c1), 2 * c.natAbs ≤ 193)
       ∧ RPoly.toInts D = [0, 0, 0, 0, -1, 0, 1, -1] := by decide +kernel
 
+/-- the noise instance: the integer lists behind `u8`, `e08`, `e18`, `epk8`, `sQP8` -/
+def u8Z : List ℤ := [1, 0, -1, 0, 1, 1, 0, -1]
+def e08Z : List ℤ := [2, -1, 0, 1, 0, -2, 1, 0]
+def e18Z : List ℤ := [0, 1, -1, 0, 2, 0, 0, -1]
+def epk8Z : List ℤ := [1, 0, -1, 0, 2, 0, -2, 1]
+def s8Z : List ℤ := [1, -1, 0, 1, 0, 0, -1, 1]
+
+theorem hyps8n : (∀ p ∈ ([193] : List ℕ), p < RQ.Rword)
+    ∧ u8Z.length = 8 ∧ e08Z.length = 8 ∧ e18Z.length = 8 ∧ epk8Z.length = 8 ∧ s8Z.length = 8
+    ∧ (∀ v ∈ [u8Z, e08Z, e18Z], (∀ x ∈ v, 2 * x.natAbs < ([97] : List ℕ).headD 1)
+        ∧ ∀ x ∈ v, ∀ p ∈ ([193] : List ℕ), x.natAbs ≤ p) := by
+  refine ⟨by decide, by decide, by decide, by decide, by decide, by decide, by decide⟩
+
+/-- obtained FROM THE THEOREM: the decryption error of `instance8` is the reduction of an integer polynomial of norm
+`≤ (2·‖u·e_pk + e0 + s·e1‖∞ + 193·(1 + ‖s‖₁))/(2·193)` -/
+theorem instance8_noise :
+    let c0 := extR [193] u8 * pk08 + extR [193] e08
+    let c1 := extR [193] u8 * pk18 + extR [193] e18
+    let D := downR 1 c0 + takeRows 1 sQP8 * downR 1 c1
+    ∃ DZ : List ℤ, DZ.length = 8 ∧ D = RPoly.ofInts [97] DZ
+      ∧ 2 * (193 * ZPoly.normInf DZ)
+          ≤ 2 * ZPoly.normInf (ZPoly.add (ZPoly.add (ZPoly.mul u8Z epk8Z) e08Z) (ZPoly.mul s8Z e18Z))
+            + 193 * (1 + ZPoly.norm1 s8Z) :=
+  dec_enc_pk_P_noise_closed (qs := [97]) (ps := [193]) (n := 8) hyps8.1 hyps8.2.1 hyps8.2.2.1 hyps8.2.2.2.1
+    hyps8n.1 u8Z e08Z e18Z epk8Z s8Z pk18 hyps8n.2.1 hyps8n.2.2.1 hyps8n.2.2.2.1 hyps8n.2.2.2.2.1
+    hyps8n.2.2.2.2.2.1 hyps8.2.2.2.2.2.2.2.2.2.2.2.1 hyps8n.2.2.2.2.2.2
+
+/-- TEST (kernel evaluation): the numbers — `‖D‖∞ = 1`, numerator norm `7`, `‖s‖₁ = 5`: `2·193·1 = 386 ≤ 2·7 + 193·6 = 1172` -/
+example : ZPoly.normInf (ZPoly.add (ZPoly.add (ZPoly.mul u8Z epk8Z) e08Z) (ZPoly.mul s8Z e18Z)) = 7
+    ∧ ZPoly.norm1 s8Z = 5 := by decide +kernel
+
 end concrete
 
 end Lattigo.Props.C03Stack
@@ -222,3 +497,6 @@ end Lattigo.Props.C03Stack
 #print axioms Lattigo.Props.C03Stack.dec_enc_pk_P_closed
 #print axioms Lattigo.Props.C03Stack.dec_enc_pk_P_rq
 #print axioms Lattigo.Props.C03Stack.instance8
+#print axioms Lattigo.Props.C03Stack.extR_ofInts
+#print axioms Lattigo.Props.C03Stack.dec_enc_pk_P_noise_closed
+#print axioms Lattigo.Props.C03Stack.instance8_noise
